@@ -8,7 +8,7 @@ one() {
   props=$(python3 -c "import json;m=json.load(open('$d/meta.json'));print(' '.join([m['property']]+m.get('also_check',[])))")
   for c in $props; do
     out=/var/tmp/w0/sweep/${name}__$c.log
-    VERIF_JOBS=5 timeout 2400 tools/try_mutant.sh $d/patch.diff $c > $out 2>&1
+    VERIF_JOBS=5 timeout 2400 tools/try_mutant.sh /verif/$d/patch.diff $c > $out 2>&1
     python3 - "$d" "$c" "$out" <<'PY'
 import json,sys,re
 d,c,out=sys.argv[1:4]
